@@ -126,7 +126,7 @@ fn report_window(ctx: &mut Ctx, cfg: &Cfg, family: &str, prefix: &[Vec<u8>], win
     ctx.eval();
     let show = |l: &Vec<u8>| -> String { String::from_utf8_lossy(&l[..l.len().min(80)]).chars().flat_map(|c| c.escape_default()).collect() };
     let shown: Vec<String> = window.iter().take(6).map(show).collect();
-    let keep: Vec<&Vec<u8>> = window.iter().take(64).collect();
+    let keep: Vec<&Vec<u8>> = window.iter().take(8192).collect();
     ctx.violation(
         &format!("C01/{family}/{}/{}", cfg.label(), crate::profile_name()),
         &shown.join(" | "),
